@@ -44,3 +44,8 @@ N("c06-n-lt-form", "C06", A, TO,
   "            if loop.time() < self._deadline:\n                self._timeout_handle = loop.call_at(self._deadline, self._timeout)\n            else:\n                self.cancel(\"deadline exceeded\")")
 N("c06-n-ifexp-flip", "C06", TASKS, "fail_at", "effective_deadline = math.inf if deadline is None else deadline", "effective_deadline = deadline if deadline is not None else math.inf")
 N("c06-n-setter-truthy", "C06", A, DS, "        if self._timeout_handle is not None:", "        if self._timeout_handle:")
+
+# from seeded change C06/a (also delivered as C03/c in round 2)
+M("c06-rearm-only-if-timer-pending", "C06", A, "CancelScope.deadline@setter",
+  "            self._timeout_handle = None\n\n        if self._active and not self._cancel_called:\n            self._timeout()",
+  "            self._timeout_handle = None\n            if self._active and not self._cancel_called:\n                self._timeout()", ["R06-c"])
